@@ -361,6 +361,11 @@ def main(tier, replay=None):
                               {"case": case, "event": family.clean_json(ev), "strings": ev.get("_strings"), "verdict": [kind, detail]})
             if l == 2 and len(rep.cov["samples"]) < 3:
                 rep.sample({"form": ev["form"], "printed": ev.get("_strings"), "original_rows_rounded": opsshow(ev["orig"]), "read_back": opsshow(ev["back"]), "verdict": [kind, detail]})
+    if not replay:
+        from vcommon import drift_tier
+
+        # the printer automaton of Serializer.tla, every list of <= 4 abstract terms into the real to_str_list()
+        drift_tier(PROP, "printer", lambda: __import__("printdrv").conformance(rep, rd, PROP))
     shutil.rmtree(rd, ignore_errors=True)
     return rep.finish({
         "evaluations": n_ev,
